@@ -91,8 +91,7 @@ func (ctx *Context) Parse(value string) error {
 	if ctx.Config.ParseExprLimit != 0 {
 		p.maxExprCnt = ctx.Config.ParseExprLimit
 	}
-	// 设置错误消息语言
-	SetParseErrorLanguage(ctx.Config.ParseErrorLanguage)
+	// 错误消息语言随解析器携带(d.Config.ParseErrorLanguage)，不写包级变量
 	verifGate("parse.lang", ctx)
 	_, err := func() (val any, err error) {
 		defer func() {
